@@ -3,6 +3,7 @@ package hamt
 import (
 	"context"
 	"fmt"
+	"sync"
 
 	bitfield "github.com/ipfs/go-bitfield"
 	"github.com/ipfs/go-unixfsnode/data"
@@ -33,6 +34,9 @@ type _UnixFSHAMTShard struct {
 	bitfield     bitfield.Bitfield
 	shardCache   map[ipld.Link]*_UnixFSHAMTShard
 	cachedLength int64
+	// memoLk guards shardCache and cachedLength: nodes are read-only values
+	// and may be used from several goroutines at once
+	memoLk sync.Mutex
 }
 
 // NewUnixFSHAMTShard attempts to construct a UnixFSHAMTShard node from the base protobuf node plus
@@ -152,7 +156,9 @@ func AttemptHAMTShardFromNode(ctx context.Context, nd ipld.Node, lsys *ipld.Link
 }
 
 func (n UnixFSHAMTShard) loadChild(pbLink dagpb.PBLink) (UnixFSHAMTShard, error) {
+	n.memoLk.Lock()
 	cached, ok := n.shardCache[pbLink.FieldHash().Link()]
+	n.memoLk.Unlock()
 	if ok {
 		return cached, nil
 	}
@@ -163,6 +169,12 @@ func (n UnixFSHAMTShard) loadChild(pbLink dagpb.PBLink) (UnixFSHAMTShard, error)
 	und, err := AttemptHAMTShardFromNode(n.ctx, nd, n.lsys)
 	if err != nil {
 		return nil, err
+	}
+	n.memoLk.Lock()
+	defer n.memoLk.Unlock()
+	if cached, ok := n.shardCache[pbLink.FieldHash().Link()]; ok {
+		// another goroutine loaded the same child meanwhile
+		return cached, nil
 	}
 	n.shardCache[pbLink.FieldHash().Link()] = und
 	return und, nil
@@ -274,8 +286,11 @@ func (n UnixFSHAMTShard) ListIterator() ipld.ListIterator {
 // Length returns the length of a list, or the number of entries in a map,
 // or -1 if the node is not of list nor map kind.
 func (n UnixFSHAMTShard) length() (int64, error) {
-	if n.cachedLength != -1 {
-		return n.cachedLength, nil
+	n.memoLk.Lock()
+	cachedLength := n.cachedLength
+	n.memoLk.Unlock()
+	if cachedLength != -1 {
+		return cachedLength, nil
 	}
 	maxPadLen := maxPadLength(n.data)
 	total := int64(0)
@@ -300,7 +315,9 @@ func (n UnixFSHAMTShard) length() (int64, error) {
 			total += cl
 		}
 	}
+	n.memoLk.Lock()
 	n.cachedLength = total
+	n.memoLk.Unlock()
 	return total, nil
 }
 
